@@ -37,6 +37,8 @@
 EXTENDS Integers, Sequences, FiniteSets, TLC
 
 CONSTANTS NK, NST, NSU,     \* access keys, TCP close statuses, UDP packet statuses
+          EmptyKey,         \* the key whose configured ID is the empty string (0 = no such key): its series carry
+                            \* access_key="" - the same label as connections without a key; otherwise just another key
           MaxConn, MaxOps,
           Amounts,          \* byte counts a report may carry (0 included: addIfNonZero)
           Counts            \* numbers of datagrams one PktC/PktT step stands for
@@ -44,6 +46,7 @@ CONSTANTS NK, NST, NSU,     \* access keys, TCP close statuses, UDP packet statu
 Keys0 == 0..NK
 Keys == 1..NK
 Conns == 1..MaxConn
+Lbl(k) == IF k = EmptyKey THEN 0 ELSE k     \* index of the access_key label a key is exported under
 Dirs == 1..4                \* TCP/UDP: 1 c>p  2 p>t  3 p<t  4 c<p
 
 VARIABLES conn,             \* c -> [kind, st]  kind: "none","tcp","udp"; st: "open","authed","closed","nat","removed"
@@ -100,8 +103,8 @@ ProbeCore(c, b) == /\ conn[c].kind = "tcp" /\ conn[c].st = "open"
                                   gkey, gst, gdata, gpkN, gpkB>>
 CloseCore(c, s, d) == /\ conn[c].kind = "tcp" /\ conn[c].st \in {"open", "authed"}
                       /\ conn' = [conn EXCEPT ![c].st = "closed"]
-                      /\ tcpBytes' = AddDirs(tcpBytes, rem[c], d)
-                      /\ closedCnt' = [closedCnt EXCEPT ![s][rem[c]] = @ + 1]
+                      /\ tcpBytes' = AddDirs(tcpBytes, Lbl(rem[c]), d)
+                      /\ closedCnt' = [closedCnt EXCEPT ![s][Lbl(rem[c])] = @ + 1]
                       /\ gst' = [gst EXCEPT ![c] = s] /\ gdata' = [gdata EXCEPT ![c] = d]
                       /\ UNCHANGED <<rem, nconn, opened, probeCnt, probeSum, natAdded, natRemoved, udpPkts, udpBytes,
                                      gkey, gprobeN, gprobeB, gpkN, gpkB>>
@@ -117,7 +120,7 @@ NatAddCore(c, k) == /\ conn[c].kind = "none"
 PktCCore(c, s, n, cp, pt) ==
     /\ conn[c].kind = "udp"
     /\ LET d == [x \in Dirs |-> IF x = 1 THEN n * cp ELSE IF x = 2 THEN n * pt ELSE 0] IN
-       /\ udpBytes' = AddDirs(udpBytes, rem[c], d)
+       /\ udpBytes' = AddDirs(udpBytes, Lbl(rem[c]), d)
        /\ gpkB' = [gpkB EXCEPT ![c] = [x \in Dirs |-> @[x] + d[x]]]
     /\ udpPkts' = [udpPkts EXCEPT ![s] = @ + n]
     /\ gpkN' = [gpkN EXCEPT ![c][s] = @ + n]
@@ -126,7 +129,7 @@ PktCCore(c, s, n, cp, pt) ==
 PktTCore(c, n, tp, pc) ==
     /\ conn[c].kind = "udp"
     /\ LET d == [x \in Dirs |-> IF x = 3 THEN n * tp ELSE IF x = 4 THEN n * pc ELSE 0] IN
-       /\ udpBytes' = AddDirs(udpBytes, rem[c], d)
+       /\ udpBytes' = AddDirs(udpBytes, Lbl(rem[c]), d)
        /\ gpkB' = [gpkB EXCEPT ![c] = [x \in Dirs |-> @[x] + d[x]]]
     /\ UNCHANGED <<conn, rem, nconn, opened, closedCnt, tcpBytes, probeCnt, probeSum, natAdded, natRemoved, udpPkts,
                    gkey, gst, gdata, gprobeN, gprobeB, gpkN>>
@@ -139,14 +142,14 @@ NatRemoveCore(c) == /\ conn[c].kind = "udp" /\ conn[c].st = "nat"
 TcpConns == {c \in Conns : conn[c].kind = "tcp"}
 UdpConns == {c \in Conns : conn[c].kind = "udp"}
 IdealOpened == Cardinality(TcpConns)
-IdealClosed == [s \in 1..NST |-> [k \in Keys0 |-> Cardinality({c \in TcpConns : gst[c] = s /\ gkey[c] = k})]]
-IdealTcpBytes == [k \in Keys0 |-> [d \in Dirs |-> SumF([c \in Conns |-> IF c \in TcpConns /\ gst[c] # 0 /\ gkey[c] = k THEN gdata[c][d] ELSE 0], Conns)]]
+IdealClosed == [s \in 1..NST |-> [k \in Keys0 |-> Cardinality({c \in TcpConns : gst[c] = s /\ Lbl(gkey[c]) = k})]]
+IdealTcpBytes == [k \in Keys0 |-> [d \in Dirs |-> SumF([c \in Conns |-> IF c \in TcpConns /\ gst[c] # 0 /\ Lbl(gkey[c]) = k THEN gdata[c][d] ELSE 0], Conns)]]
 IdealProbeN == SumF(gprobeN, Conns)
 IdealProbeB == SumF(gprobeB, Conns)
 IdealNatAdded == Cardinality(UdpConns)
 IdealNatRemoved == Cardinality({c \in UdpConns : conn[c].st = "removed"})
 IdealUdpPkts == [s \in 1..NSU |-> SumF([c \in Conns |-> gpkN[c][s]], Conns)]
-IdealUdpBytes == [k \in Keys0 |-> [d \in Dirs |-> SumF([c \in Conns |-> IF c \in UdpConns /\ gkey[c] = k THEN gpkB[c][d] ELSE 0], Conns)]]
+IdealUdpBytes == [k \in Keys0 |-> [d \in Dirs |-> SumF([c \in Conns |-> IF c \in UdpConns /\ Lbl(gkey[c]) = k THEN gpkB[c][d] ELSE 0], Conns)]]
 AllTcpClosed == \A c \in TcpConns : conn[c].st = "closed"
 
 Exported == [valid |-> TRUE, opened |-> opened, closed |-> closedCnt, tbytes |-> tcpBytes, probeN |-> probeCnt,
